@@ -1,7 +1,7 @@
 (** The coordinate round trip of src/header/lat_lng.rs over IEEE-754 binary64 (Flocq):
     for every stored value i (an i32), [stored_of_deg (deg_of_stored i) = i]. *)
 From Coq Require Import ZArith Reals Lia Lra Psatz.
-From Flocq Require Import Core BinarySingleNaN Relative.
+From Flocq Require Import Core BinarySingleNaN Relative Sterbenz Mult_error.
 Require Import PM.Params PM.Float.
 Open Scope R_scope.
 #[local] Existing Instance Hprec.
@@ -93,6 +93,14 @@ Proof.
   - simpl. lia.
 Qed.
 
+Lemma fmt_Zbig (z : Z) : (Z.abs z <= 4000000000)%Z -> generic_format radix2 fx (IZR z).
+Proof.
+  intros H. apply generic_format_FLT. exists (Float radix2 z 0).
+  - unfold F2R. simpl. ring.
+  - simpl. change (2 ^ 53)%Z with 9007199254740992%Z. lia.
+  - simpl. lia.
+Qed.
+
 Lemma of_Z_ok (z : Z) : (Z.abs z <= 2147483648)%Z -> B2R (of_Z z) = IZR z /\ is_finite (of_Z z) = true.
 Proof.
   intros H. unfold of_Z.
@@ -107,6 +115,52 @@ Qed.
 
 Lemma FAC_ok : B2R FAC = 10000000 /\ is_finite FAC = true.
 Proof. apply (of_Z_ok 10000000). lia. Qed.
+
+
+Lemma F_one_ok : B2R F_one = 1 /\ is_finite F_one = true. Proof. apply (of_Z_ok 1). lia. Qed.
+Lemma F_zero_ok : B2R F_zero = 0 /\ is_finite F_zero = true. Proof. apply (of_Z_ok 0). lia. Qed.
+Lemma fmt_half0 : generic_format radix2 fx (/ 2).
+Proof.
+  apply generic_format_FLT. exists (Float radix2 1 (-1)).
+  - unfold F2R. cbn [Fnum Fexp]. change (bpow radix2 (-1)) with (/ 2). lra.
+  - cbn [Fnum]. vm_compute. reflexivity.
+  - cbn [Fexp]. lia.
+Qed.
+Lemma F_half_ok : B2R F_half = / 2 /\ is_finite F_half = true.
+Proof.
+  unfold F_half. destruct (of_Z_ok 1 ltac:(lia)) as [V1 F1]. destruct (of_Z_ok 2 ltac:(lia)) as [V2 F2].
+  generalize (Bdiv_correct prec emax Hprec Hmax mode_NE (of_Z 1) (of_Z 2)).
+  rewrite fexp_eq, V1, V2. simpl round_mode. intros HD. specialize (HD ltac:(lra)).
+  replace (1 / 2) with (/ 2) in HD by lra.
+  rewrite round_generic in HD by (try typeclasses eauto; apply fmt_half0).
+  rewrite Rlt_bool_true in HD by (apply big; rewrite Rabs_pos_eq; lra).
+  destruct HD as [D1 [D2 _]]. rewrite F1 in D2. split; assumption.
+Qed.
+
+(** the integer nearest to a representable number differs from it by a representable number *)
+Lemma fmt_int_diff (P : R) : generic_format radix2 fx P -> Rabs P <= 3000000000 ->
+  generic_format radix2 fx (IZR (ZnearestA P) - P).
+Proof.
+  intros HP Hb. set (n := ZnearestA P).
+  pose proof (Znearest_half (Zle_bool 0) P) as Hh. fold n in Hh.
+  destruct (Z.eq_dec n 0) as [E|E].
+  - rewrite E. replace (0 - P) with (- P) by ring. now apply generic_format_opp.
+  - assert (H1 : 1 <= Rabs (IZR n)). { rewrite <- abs_IZR. apply IZR_le. lia. }
+    assert (H2 : / 2 <= Rabs P).
+    { apply Rabs_le_inv in Hh. revert H1. unfold Rabs. repeat destruct Rcase_abs; lra. }
+    assert (Hn : (Z.abs n <= 4000000000)%Z).
+    { apply le_IZR. rewrite abs_IZR. apply Rabs_le_inv in Hh. apply Rabs_le_inv in Hb. apply Rabs_le.
+      change (IZR 4000000000) with 4000000000. lra. }
+    replace (IZR n - P) with (IZR n + - P) by ring.
+    apply generic_format_plus; try typeclasses eauto.
+    + now apply fmt_Zbig.
+    + now apply generic_format_opp.
+    + apply Rle_trans with (bpow radix2 0).
+      * change (bpow radix2 0) with 1. replace (IZR n + - P) with (- (P - IZR n)) by ring. rewrite Rabs_Ropp. lra.
+      * apply bpow_le. apply Z.min_glb.
+        -- apply Z.le_trans with 1%Z; [lia|]. apply mag_ge_bpow. change (bpow radix2 (1 - 1)) with 1. exact H1.
+        -- rewrite mag_opp. apply mag_ge_bpow. change (bpow radix2 (0 - 1)) with (/ 2). exact H2.
+Qed.
 
 Lemma round_FIX0_int (rndf : R -> Z) {Hv : Valid_rnd rndf} (z : Z) : round radix2 (FIX_exp 0) rndf (IZR z) = IZR z.
 Proof.
@@ -125,6 +179,28 @@ Lemma cast_i32_finite (f : f64) (z : Z) : is_finite f = true -> Btrunc f = z ->
   (i32_min <= z <= i32_max)%Z -> cast_i32 f = z.
 Proof.
   intros Hf Ht Hz. unfold cast_i32. destruct f; try discriminate; rewrite Ht; lia.
+Qed.
+
+(** the test for "the rounded product lies exactly halfway between two integers" is exact *)
+Lemma tie_test (p : f64) : is_finite p = true -> Rabs (B2R p) <= 3000000000 ->
+  B2R (round_away p) = IZR (ZnearestA (B2R p)) /\ is_finite (round_away p) = true /\
+  Beqb (Babs (Bminus mode_NE (round_away p) p)) F_half = Req_bool (Rabs (IZR (ZnearestA (B2R p)) - B2R p)) (/ 2).
+Proof.
+  intros Fp Hb. unfold round_away.
+  destruct (Bnearbyint_correct prec emax Hmax mode_NA p) as [N1 [N3 _]].
+  simpl round_mode in N1. rewrite round_FIX0 in N1. rewrite Fp in N3.
+  set (r := Bnearbyint mode_NA p) in *. set (n := ZnearestA (B2R p)) in *.
+  split; [exact N1|]. split; [exact N3|].
+  pose proof (Znearest_half (Zle_bool 0) (B2R p)) as Hh. fold n in Hh.
+  generalize (Bminus_correct prec emax Hprec Hmax mode_NE r p N3 Fp).
+  rewrite fexp_eq, N1. simpl round_mode.
+  rewrite (round_generic radix2 fx ZnearestE (IZR n - B2R p)) by
+    (try typeclasses eauto; apply fmt_int_diff; [apply generic_format_B2R|exact Hb]).
+  rewrite Rlt_bool_true.
+  - intros [S1 [S2 _]]. destruct F_half_ok as [Vh Fh].
+    rewrite Beqb_correct by (rewrite ?is_finite_Babs; assumption).
+    now rewrite B2R_Babs, S1, Vh.
+  - apply big. replace (IZR n - B2R p) with (- (B2R p - IZR n)) by ring. rewrite Rabs_Ropp. lra.
 Qed.
 
 Theorem stored_roundtrip (i : Z) : (- 2147483648 <= i < 2147483648)%Z -> stored_of_deg (deg_of_stored i) = i.
@@ -151,6 +227,12 @@ Proof.
   assert (N2 : B2R (Bnearbyint mode_NA w) = IZR i).
   { rewrite N1, round_FIX0. rewrite (Znearest_imp _ _ i); [reflexivity|].
     eapply Rle_lt_trans; [apply C1|lra]. }
+  (* the rounded product is nowhere near a half: the correction branch is not taken *)
+  destruct (tie_test w ltac:(rewrite M2; reflexivity) ltac:(rewrite M1; exact C3)) as [_ [_ T]].
+  unfold round_away in T. rewrite T, M1.
+  rewrite (Znearest_imp _ _ i) by (eapply Rle_lt_trans; [apply C1|lra]).
+  rewrite Req_bool_false.
+  2:{ apply Rabs_le_inv in C1. unfold Rabs. destruct Rcase_abs; lra. }
   apply cast_i32_finite.
   - rewrite N3. exact M2.
   - apply eq_IZR. rewrite Btrunc_correct, N2; [|exact Hmax]. apply round_FIX0_int. apply valid_rnd_ZR.
